@@ -101,7 +101,7 @@ def tilde_names(root):
 def gen(tier, seed):
     root = core._W.get('opts', {}).get('cwd') or GEN_ROOT[0]
     P = pool(root)
-    maxlen = 2 if tier == 'quick' else 3
+    maxlen = 3 if tier == 'quick' else 4
     seqs = [()]
     for n in range(1, maxlen + 1):
         seqs += list(itertools.product(range(len(P)), repeat=n))
